@@ -175,8 +175,9 @@ def suspend_resume_model(chk):
     d = os.path.join(VERIF, "spec", "core")
     vlib.tlc_check(chk, "SuspendResume: suspension callback (count, publish BLOCKED) against a retrying resumer and two schedulers as coded, exhaustive incl. termination under fairness",
                    os.path.join(d, "SuspendResume.tla"), os.path.join(d, "SuspendResumeMC.cfg"), timeout=300)
-    for cfg, what in (("SuspendResumeStoreEarly.cfg", "BLOCKED published before the context is saved"), ("SuspendResumeNoCheck.cfg", "a resume that does not test the state")):
-        r = vlib.tlc_check(chk, "SuspendResume with %s (must be violated: the ULT runs on two streams)" % what, os.path.join(d, "SuspendResume.tla"),
+    for cfg, what in (("SuspendResumeStoreEarly.cfg", "BLOCKED published before the context is saved"), ("SuspendResumeNoCheck.cfg", "a resume that does not test the state"),
+                      ("SuspendResumeTermInCb.cfg", "a suspension callback that acts on a pending cancellation and goes on (= seeded C11-m7)")):
+        r = vlib.tlc_check(chk, "SuspendResume with %s (must be violated: the ULT runs on two streams / BLOCKED stored over TERMINATED)" % what, os.path.join(d, "SuspendResume.tla"),
                            os.path.join(d, cfg), timeout=300, expect="violation")
         if not r["violated"]:
             raise vlib.Broken("the variant of SuspendResume (%s) is not rejected: the invariants are vacuous" % what)
